@@ -4,7 +4,7 @@ import core, lib
 from core import call_matches, call_names, op_place, op_local, backward_slice
 from props import C02, shared
 
-LEVEL = 'proof'
+LEVEL = 'other'
 FLOOR = 37      # 70% of the 53 obligation instances derived on the tree the rules were last reviewed against
 EXPLANATION = ('Header follows its fields: every function that changes filled / last_removed marks the header dirty, and process_commits logs the header '
                '(complete_plan for every column) after all plans and before the record is closed; the in-memory free list changes under its lock together '
@@ -130,6 +130,7 @@ def run(ctx):
             a = hwp.term(s2)['a']
             ok = any(op_place(x) is not None and str(hwp.locals[op_place(x)[0]]) == 'usize' and any(re.search(r'search_all_indexes$', c) for c in backward_slice(hwp, [op_place(x)]).calls) for x in a[1:])
             ctx.ob('3f position-comes-from-verified-search', 'K4-provenance', hwp.path, 'the position given to write_plan_existing is the one search_all_indexes returned (search_index compares the key tail stored with the value)', ok, '', hwp.loc(s2))
+    shared.allocation_state_belongs_to_a_record(ctx, '6')
     shared.index_insert_retried(ctx, '3r')      # a moved or new value always gets its index entry
     # 4. free-list links are bounded when followed
     for fn, cmpf in (('table::ValueTable::read_next_free', '.ValueTable.filled'), ('table::ValueTable::init_table_data', '.ValueTable.filled'),
